@@ -69,6 +69,10 @@ def replay_finding(f):
         rig = L.Rig("udp", retries=0, timeout="default")
         o = rig.transact(T["read_holding"], 5, [("nothing", {})])
         return o["result"][0] == "hang"
+    if f["id"] == "F-C13-serial-timeout0-wait-for-data-hangs":
+        rig = L.Rig(w["kind"], retries=0, timeout=w["timeout"])
+        o = rig.transact(L.all_requests()[w["req"]], w["unit"], [(b, dict(p)) for b, p in w["script"]])
+        return o["result"][0] == "hang"
     spec = dict(w)
     spec["txs"] = [dict(req=t["req"], unit=t["unit"], script=[(b, p) for b, p in t.get("script", [])]) for t in w["txs"]]
     c = S.make_case(spec, "replay")
